@@ -104,7 +104,7 @@ Global Arguments exec : simpl never.
 Global Arguments expected : simpl never.
 
 (* ---------- the invariant of reachable states with a live generator ---------- *)
-Definition valid_style (y : Z) : Prop := 0 <= y <= 5.
+Definition valid_style (y : Z) : Prop := 0 <= y <= 6.
 
 (* the consumer of the outstanding access y is parked waiting for the body *)
 Definition waiting (y : Z) (s : sys) : Prop :=
@@ -132,7 +132,7 @@ Definition rem (s : sys) (args : list Z) (nc : nat) : list (item * nat) :=
   | BFinal => []
   end.
 
-Lemma valid_style_cases y : valid_style y -> y = 0 \/ y = 1 \/ y = 2 \/ y = 3 \/ y = 4 \/ y = 5.
+Lemma valid_style_cases y : valid_style y -> y = 0 \/ y = 1 \/ y = 2 \/ y = 3 \/ y = 4 \/ y = 5 \/ y = 6.
 Proof. unfold valid_style. lia. Qed.
 
 (* A body about to be resumed on behalf of access y: the caller is armed, nothing delivered yet. *)
@@ -174,7 +174,7 @@ Proof.
   unfold armed, waiting in Ha. cbn [err done exn bst argp caller ifn block fut awake] in Ha.
   destruct Ha as (He & Hd & Hx & Hw & (a0 & Hap) & Hb). subst er dn ex ap.
   unfold exec_of, run_body. cbn [bst pc gds cur argp] in *.
-  destruct (valid_style_cases y Hy) as [->|[->|[->|[->|[->| ->]]]]]; vm_compute in Hw;
+  destruct (valid_style_cases y Hy) as [->|[->|[->|[->|[->|[->| ->]]]]]]; vm_compute in Hw;
   destruct Hw as (Hw1 & Hw2); try destruct Hw2 as (Hw2 & Hw3); subst;
   (destruct bs as [| |k0|]; [| | |exfalso; apply Hb; reflexivity]);
   cbn [bst pc gds cur argp];
@@ -222,7 +222,7 @@ Definition arm (y a : Z) (s : sys) : sys :=
   let s := set_argp s (Some a) in
   if fut_style y then
     set_prom (set_cons s (out s) FPending (itn s) (awake s) (nstate s)) CInternal FFuture (Some a) (ret s) (exn s) (done s) (block s) true
-  else if y =? 3 then set_cons (set_caller s CAwt) (out s) (fut s) (itn s) false (nstate s)
+  else if (y =? 3) || (y =? 6) then set_cons (set_caller s CAwt) (out s) (fut s) (itn s) false (nstate s)
   else set_prom (set_cons s (out s) (fut s) (itn s) (awake s) false) CInternal FSync (Some a) (ret s) (exn s) (done s) false (awaiting s).
 
 Lemma access_live : forall y a s, Inv s -> valid_style y -> (bst s = BInit \/ bst s = BYield) ->
@@ -232,7 +232,7 @@ Proof.
   destruct s as [lv cr pc0 gd cu bs ca fn ap rt ex dn bl aw ot fu it ak ns er].
   unfold Inv in HI. cbn [err bst out caller done exn gds ret] in HI. cbn [bst] in Hb.
   destruct HI as [He HI].
-  destruct (valid_style_cases y Hy) as [->|[->|[->|[->|[->| ->]]]]];
+  destruct (valid_style_cases y Hy) as [->|[->|[->|[->|[->|[->| ->]]]]]];
   destruct Hb as [-> | ->]; destruct HI as (Ho & Hc & Hd & Hx & Hr); subst; vm_compute; reflexivity.
 Qed.
 
@@ -242,7 +242,7 @@ Proof.
   destruct s as [lv cr pc0 gd cu bs ca fn ap rt ex dn bl aw ot fu it ak ns er].
   unfold Inv in HI. cbn [err bst out caller done exn gds ret] in HI. cbn [bst] in Hb.
   destruct HI as [He HI].
-  destruct (valid_style_cases y Hy) as [->|[->|[->|[->|[->| ->]]]]];
+  destruct (valid_style_cases y Hy) as [->|[->|[->|[->|[->|[->| ->]]]]]];
   destruct Hb as [-> | ->]; destruct HI as (Ho & Hc & Hd & Hx & Hr); subst;
   unfold armed, waiting; vm_compute; repeat split; eauto; try discriminate; intro; discriminate.
 Qed.
@@ -251,7 +251,7 @@ Lemma arm_frame : forall y a s,
   pc (arm y a s) = pc s /\ gds (arm y a s) = gds s /\ cur (arm y a s) = cur s /\ bst (arm y a s) = bst s /\
   argp (arm y a s) = Some a /\ live (arm y a s) = live s /\ created (arm y a s) = created s.
 Proof.
-  intros. unfold arm. destruct (fut_style y); [|destruct (y =? 3)]; cbn; repeat split; reflexivity.
+  intros. unfold arm. destruct (fut_style y); [|destruct ((y =? 3) || (y =? 6))]; cbn; repeat split; reflexivity.
 Qed.
 
 Definition step_items (ev : list event) (r : res) : list item := arg_items ev ++ res_item r.
@@ -370,7 +370,7 @@ Proof.
   destruct s as [lv cr pc0 gd cu bs ca fn ap rt ex dn bl aw ot fu it ak ns er].
   unfold Inv in HI. cbn [err bst out caller done exn gds ret pc] in HI. cbn [bst] in Hb. subst bs.
   destruct HI as (He & Ho & Hc & Hg & Hp & Hr & Hd). subst.
-  destruct (valid_style_cases y Hy) as [->|[->|[->|[->|[->| ->]]]]];
+  destruct (valid_style_cases y Hy) as [->|[->|[->|[->|[->|[->| ->]]]]]];
   destruct Hd as [(-> & ->)|(-> & e & ->)]; vm_compute;
   repeat split; eauto; try discriminate; try (intro; discriminate); try (intro H; exfalso; apply H; reflexivity).
 Qed.
